@@ -277,6 +277,12 @@ def evOf (l : List String) : List LifecycleSpec.Ev :=
   | _ => []
 
 def run (c : Case) : CaseOut := Id.run do
+  -- `failexec`: Execute fails after the stream was built; Stop must tear down what Execute started
+  if c.ops.map (·.1) == [["failexec"]] then
+    let io := c.ops.flatMap (·.2)
+    let leak := io.any fun l => l.head? == some "goroutines-left"
+    return { obs := [[["execute", "error"]]], tags := ["execute-fails-after-build"],
+             spec := if leak then "fail:engine-goroutine-still-running-after-stop(execute-failed)" else "ok" }
   let mut d := initD c
   let hasSinks := !(d.s.asyncSinks.isEmpty && d.s.syncSinks.isEmpty)
   let mut obs : List (List (List String)) := []
